@@ -80,6 +80,21 @@ def budget(tier):
     return {'cases': 400000, 'wall_cap_s': 1500}
 
 
+_LOOK = [{'style': 'simple'}, {'style': 'minimal'}, {'style': 'grid'},
+         {'truncate': 3}, {'width': 20}, {'vrepr': 'str'},
+         {'index_header': True}, {'style': 'minimal', 'truncate': 1,
+                                  'index_header': True}]
+LOOK_KW = {'look': _LOOK, 'lookstr': [d for d in _LOOK if 'vrepr' not in d],
+           'see': [{'vrepr': 'str'}, {'index_header': True}]}
+
+
+def _look_kw(c):
+    kw = dict(c.get('kw') or {})
+    if kw.get('vrepr') == 'str':
+        kw['vrepr'] = str
+    return kw
+
+
 def _fix(c):
     # limit=0 means "use the configured default" for look/see/display
     if c['kind'] in ('look', 'lookstr', 'see', 'repr_html') and c['k'] == 0:
@@ -136,6 +151,9 @@ def gen_case(rng, tier, g):
     for i in range(ncons):
         consumers.append(_fix({'kind': rng.choice(kinds),
                                'k': rng.choice([0, 1, 2, 3, 5, 8, 12])}))
+        if consumers[-1]['kind'] in LOOK_KW and rng.random() < 0.4:
+            # documented formatting arguments of the look-style consumers
+            consumers[-1]['kw'] = rng.choice(LOOK_KW[consumers[-1]['kind']])
     # interleaving of the raw next() consumers: a sequence of task indices
     order = []
     for i, c in enumerate(consumers):
@@ -254,13 +272,13 @@ def _run_consumer(e, view, c, tid, items):
         if kind == 'records-slice':
             return len(list(iter(e.records(view, 0, k))))
         if kind == 'look':
-            str(e.look(view, limit=k))
+            str(e.look(view, limit=k, **_look_kw(c)))
             return k
         if kind == 'lookstr':
-            e.lookstr(view, limit=k)
+            e.lookstr(view, limit=k, **_look_kw(c))
             return k
         if kind == 'see':
-            str(e.see(view, limit=k))
+            str(e.see(view, limit=k, **_look_kw(c)))
             return k
         if kind == 'repr_html':
             import petl.config as config
